@@ -14,6 +14,16 @@ C = {
          "exhaustive enumeration of alphabet cross products and complete count axes + explicit-state BFS (stateright) over operation sequences, on the implementation, i128 reference oracle"),
  "C08": ("Every second of the day x sub-second bounds x boundary counts x 12 operations, complete count axis (thorough), all ordered pairs of a 4320-point grid for Time +/- Time, Duration menu up to u64::MAX s, Time::from(DateTime) on boundary instants x offsets, constructors, plus a stateright BFS over operation sequences to depth 3 (4 thorough) with the invariant as_nanos() < 1 day and canonical equality on every reached state.",
          "exhaustive enumeration + explicit-state BFS (stateright) over operation sequences on the implementation, modular-arithmetic reference oracle"),
+ "C05": ("Every day of seven multi-year windows (era boundary, leap years, both range ends) x ~110 month/year counts x add/sub months/years on Date, landmark days x times x offsets on DateTime, every day of the whole range x {1, 12 months, 1, 4 years} and every N of the non-panicking region from three base dates (thorough; lattices quick); oracle: total-month arithmetic on astronomical years with end-of-month clamp, panic iff out of range.",
+         "exhaustive enumeration of (day, N, operation) spaces on the implementation, reference-model oracle"),
+ "C06": ("All ordered pairs of ~1500 (thorough 11 000) boundary instants under offset pairs for the seven *_since and duration_between of DateTime, a borrow grid k*unit + {-1,0,+1} ns around three anchors, inversion of add_<unit> on boundary counts, all ordered pairs of a 4320-point grid (all 7.46e9 one-second pairs thorough) for Time, all pairs of ~2200 days for Date; oracle: trunc((a-b)/unit) on i128, antisymmetry, |a-b|.",
+         "exhaustive enumeration of ordered-pair spaces on the implementation, i128 reference oracle"),
+ "C07": ("All ordered pairs of dates inside five multi-year windows (era boundary, 1900, 2016-2025, both range ends; ~47 M pairs thorough) and all pairs x 4x4 times of day inside two DateTime windows, plus a deterministic lattice of far-apart pairs: exact value where the statement defines it (reference self-checked against its defining inequality on every pair), antisymmetry and monotonicity for all pairs.",
+         "exhaustive enumeration of all ordered pairs inside windows on the implementation, reference-model oracle with per-pair self-check"),
+ "C09": ("Full cross product of ~1400 boundary instants x 27 boundary offsets x (10 setters x every in-range value plus out-of-range and wrap-back values, 9 clear_until_*), every whole-minute offset (every offset thorough) on an instant subset, Date and Time analogues, and a stateright BFS over sequences of set/clear/set_offset to depth 2 (3 thorough); oracle: field replacement / truncation on the decomposed local instant, getters read back.",
+         "exhaustive enumeration of alphabet cross products + explicit-state BFS (stateright) over operation sequences on the implementation, reference-model oracle"),
+ "C10": ("~450 instants x every whole-minute offset (all 172 799 offsets thorough) and x all pairs (previous, new) of 27 boundary offsets: set_offset keeps timestamp, ==, cmp and all differences while all 11 getters and the formatted fields equal the decomposition of instant + offset; as_offset keeps fields and shifts the instant; Time analogues on all 86 400 seconds; Offset constructors/resolve round trip on all 172 799 offsets.",
+         "exhaustive enumeration of instant x offset spaces on the implementation, reference-model oracle"),
  "C15": ("Full cross products of boundary alphabets for every fallible constructor and all 10 setters, complete 2^32 sweeps of Time::from_seconds and Offset::from_seconds; Ok iff reference-valid and reads back its arguments, Err is OutOfRange, and a stated range is checked against the set of values the real function accepts for the named parameter.",
          "exhaustive enumeration of boundary-alphabet cross products and complete u32/i32 argument axes on the implementation, validity oracle"),
 }
